@@ -26,7 +26,21 @@ func main() {
 	list := flag.Bool("list", false, "list rules and exit")
 	dump := flag.Bool("dump", false, "print every obligation")
 	noSelf := flag.Bool("no-selftest", false, "thorough tier: skip the seeded-mutant self-test")
+	ssaDump := flag.String("ssa", "", "debug: print the SSA of module functions whose name contains this string")
 	flag.Parse()
+
+	if *ssaDump != "" {
+		p, err := core.Load(*repo)
+		if err != nil {
+			fatal("%v", err)
+		}
+		for _, fn := range p.ModFuncs {
+			if strings.Contains(fn.String(), *ssaDump) {
+				fn.WriteTo(os.Stdout)
+			}
+		}
+		return
+	}
 
 	if *list {
 		for _, r := range rules.Sorted() {
